@@ -334,7 +334,10 @@ def run(ctx):
     okb = len(ls) == 1 and re.search(r"\(num_read < (\d+)\)", loop_header(pm, ls[0])) is not None
     bound = int(re.search(r"\(num_read < (\d+)\)", loop_header(pm, ls[0])).group(1)) if okb else None
     reads = pm.calls("read")
-    ctx.check(okb and bound is not None and bound <= 32 and len(reads) == 1 and pm.text(pm.nodes[reads[0]]["args"][2]) == "1"
+    if not ls:
+        ctx.broken("bounded-read", "anchor", pm.loc(), "no read loop counted by num_read found in processMsg itself (moved into a helper?): the rules on the request read loop cannot be evaluated")
+    else:
+      ctx.check(okb and bound is not None and bound <= 32 and len(reads) == 1 and pm.text(pm.nodes[reads[0]]["args"][2]) == "1"
               and pm.text(pm.nodes[reads[0]]["args"][1]) == "&byte_buf", "bounded-read", "loop-shape", pm.loc(ls[0]["stmt"]) if ls else pm.loc(),
               "at most %s one-byte reads per connection" % bound, "read loop is not a bounded sequence of one-byte reads")
 
@@ -461,6 +464,22 @@ def run(ctx):
                 ws_ = [n_ for n_ in lam.nodes if n_["k"] in ("bin", "call") and n_.get("op") in ("=", "+=", "-=", "++", "--")]
                 ok = len(ws_) == 1 and ws_[0]["k"] == "bin" and ws_[0]["op"] == "=" and lam.text(ws_[0]["l"]) == pn_ + ".second" and lam.text(ws_[0]["r"]) == "0" \
                     and not [c_ for c_ in lam.calls() if not lam.nodes[c_].get("cconst") and "op" not in lam.nodes[c_]]
+    if not muts and not zero and not ok:
+        # range-for over the map by mutable reference: `for (auto& kv : stats_) kv.second = 0;` / `for (auto& [key, value] : stats_) value = 0;`
+        rls = [l for l in loops(rsf) if l.get("stmt") is not None and rsf.nodes[l["stmt"]]["k"] == "rangefor" and rsf.text(rsf.nodes[l["stmt"]]["range"]) == "this->stats_"]
+        if len(rls) == 1:
+            lv = rsf.nodes[rls[0]["stmt"]].get("loopvar", -1)
+            vars_ = rsf.nodes[lv].get("vars", []) if lv is not None and lv >= 0 else []
+            targets = set()
+            for v_ in vars_:
+                if v_.get("isref") and not (v_.get("type") or "").startswith("const "):
+                    targets.add(v_["name"] + ".second")
+                    b_ = [x.split("@")[0] for x in v_.get("bindings", [])]
+                    if len(b_) == 2:
+                        targets.add(b_[1])
+            ws_ = [n_ for n_ in rsf.nodes if n_["k"] in ("bin", "call", "un") and n_.get("op") in ("=", "+=", "-=", "++", "--", "*=", "|=", "&=")
+                   and not rsf.text(n_.get("l", n_.get("recv", n_.get("sub", -1)))).startswith("__")]        # (the range-for's own ++__begin)
+            ok = bool(targets) and bool(ws_) and all(n_["k"] == "bin" and n_["op"] == "=" and rsf.text(n_["l"]) in targets and rsf.text(n_["r"]) == "0" for n_ in ws_)
     ctx.check(ok, "reset-zeroes-existing-keys", "value-shape", rsf.loc(), "reset assigns 0 to every key it iterates and nothing else",
               "reset mutates the map otherwise: " + str([(nm, X(rsf.nodes[i]["args"][0]) if rsf.nodes[i].get("args") else "") for i, nm in muts]))
 
